@@ -9,6 +9,7 @@ package forwarder
 import (
 	"net"
 	"slices"
+	"strings"
 
 	"github.com/prometheus/client_golang/prometheus"
 	"github.com/prometheus/client_golang/prometheus/promauto"
@@ -90,7 +91,9 @@ func addr2Host(addr string) string {
 		return "localhost"
 	}
 
-	return host
+	// The host may come straight from a client's request-target,
+	// label values that are not valid UTF-8 make prometheus panic.
+	return strings.ToValidUTF8(host, "\uFFFD")
 }
 
 type listenerMetrics struct {
